@@ -114,6 +114,46 @@ func loadKnown(verifDir string) ([]KnownFinding, error) {
 	return kf, nil
 }
 
+// unlisted counts the violations (floors included) that the known-findings file does not list,
+// without recording anything.
+func (c *Check) unlistedKeys() []string {
+	count := map[string]int{}
+	for _, o := range c.Obls {
+		count[o.Rule]++
+	}
+	var out []string
+	for _, r := range c.ruleOrd {
+		if count[r] < c.floors[r] {
+			out = append(out, r+"/floor")
+		}
+	}
+	known, err := loadKnown(c.VerifDir)
+	if err != nil {
+		out = append(out, "known_findings.json")
+	}
+	kmap := map[string]bool{}
+	for _, k := range known {
+		if k.Property == c.ID && k.State == "finding" {
+			kmap[k.Key] = true
+		}
+	}
+	for _, o := range c.Obls {
+		if o.Status == "violated" && !kmap[strings.TrimSuffix(o.Key, "@boringcrypto")] {
+			out = append(out, o.Key)
+		}
+	}
+	return out
+}
+
+func (c *Check) unlisted() int { return len(c.unlistedKeys()) }
+
+func (c *Check) firstUnlisted() string {
+	if k := c.unlistedKeys(); len(k) > 0 {
+		return k[0]
+	}
+	return ""
+}
+
 // Finish applies floors and the known-findings file, writes evidence and (on violation) the report,
 // prints the protocol lines and returns the exit code.
 func (c *Check) Finish() int {
